@@ -121,6 +121,17 @@ def make_prog(spec, i):
                 steps.append({"op": op, "h": ti, "path": [], "args": args})
             threads.append(steps)
         with_cr = False
+    if not directed and topo in ("distinct_files", "one_file_two_objects") and r.random() < 0.35:
+        # every thread constructs its own object inside the context, uses it and releases it before it ends: what it
+        # buffered must reach the file when the context exits all the same
+        topo = topo + "_thread_local"
+        roots = []
+        for ti, steps in enumerate(threads):
+            res = ti if nfiles > 1 else 0
+            for st in steps:
+                st["h"] = 100 + ti
+            steps.insert(0, {"new": 100 + ti, "res": res})
+            steps.append({"drop": 100 + ti})
     # capacity
     if info.strategy == "serialized":
         sizes = [len(json.dumps(x)) for x in inits]
@@ -133,7 +144,7 @@ def make_prog(spec, i):
     prog = {"cls": info.name, "init": inits, "files": nfiles, "roots": roots, "pre": [], "threads": threads,
             "buffered": {"cap": cap}}
     # some objects load before the threads start (first touch outside the threads)
-    if r.random() < 0.4:
+    if r.random() < 0.4 and roots:
         prog["pre"] = [{"op": "len", "h": roots[0][0], "path": [], "args": []}]
     return prog, {"topology": topo, "cap": "default" if cap is None else ("zero" if cap == 0 else "small"),
                   "stratum": "with_clear_reset" if with_cr else "item_ops"}, r
